@@ -79,4 +79,104 @@ theorem framer_consts_regenerated :
     Gen.Consts.framer_minHeader = 4 ∧ Gen.Consts.proto_stunHeaderSize = 20 ∧ Gen.Consts.proto_padding = 4 ∧
     Gen.Consts.proto_channelDataHeaderSize = 4 := by decide
 
+/-! ### the whole read loop -/
+
+/-- nothing left on the stream: the next call reports end of stream, never a frame -/
+theorem readFrom_empty : ∀ (chunks : List Bytes) (buff : Bytes), buff ++ chunks.flatten = [] →
+    (readFrom chunks buff).1 = .eof := by
+  intro chunks
+  induction chunks with
+  | nil => intro buff h; simp at h; subst h; simp [readFrom, consume]
+  | cons ch chs ih =>
+    intro buff h
+    simp only [List.flatten_cons, List.append_eq_nil_iff] at h
+    obtain ⟨hb, hc, hr⟩ := h
+    subst hb; subst hc
+    simp only [readFrom, consume, List.append_nil]
+    exact ih [] (by simpa using hr)
+
+/-- the whole read loop (server.go `readLoop` over a STUNConn), ∀ frame sequences, ∀ segmentations:
+    a stream that is exactly a concatenation of frames yields exactly those frames, in order, and then
+    the end of the stream — no frame is lost, duplicated, merged, split or invented, and the loop ends
+    with EOF, not with an error. -/
+theorem readloop_exact : ∀ (fs : List Bytes), (∀ f ∈ fs, WF f) →
+    ∀ (fuel : Nat) (chunks : List Bytes) (buff : Bytes), buff ++ chunks.flatten = fs.flatten →
+      fs.length < fuel → readAll fuel chunks buff = (fs, some .eof) := by
+  intro fs
+  induction fs with
+  | nil =>
+    intro _ fuel chunks buff heq hf
+    obtain ⟨k, rfl⟩ : ∃ k, fuel = k + 1 := ⟨fuel - 1, by simp at hf; omega⟩
+    have h := readFrom_empty chunks buff (by simpa using heq)
+    simp only [readAll]
+    split
+    · rename_i f c hrf; rw [hrf] at h; cases h
+    · rename_i r c hne hrf; rw [hrf] at h; simp at h; subst h; rfl
+  | cons f fs ih =>
+    intro hwf fuel chunks buff heq hf
+    obtain ⟨k, rfl⟩ : ∃ k, fuel = k + 1 := ⟨fuel - 1, by simp at hf; omega⟩
+    have hfw : WF f := hwf f List.mem_cons_self
+    simp only [List.flatten_cons] at heq
+    obtain ⟨c1, h1, h1r, _⟩ := readFrom_one hfw chunks buff _ heq
+    have h2 := ih (fun g hg => hwf g (List.mem_cons_of_mem _ hg)) k c1.chunks c1.buff h1r
+      (by simp at hf; omega)
+    simp only [readAll, h1, h2]
+
+/-- segmentation independence stated outright: two ways of cutting the same byte stream into reads
+    give the same frames and the same end of loop -/
+theorem readloop_segmentation_independent (fs : List Bytes) (hwf : ∀ f ∈ fs, WF f)
+    (chunks₁ chunks₂ : List Bytes) (h₁ : chunks₁.flatten = fs.flatten) (h₂ : chunks₂.flatten = fs.flatten)
+    (fuel₁ fuel₂ : Nat) (hf₁ : fs.length < fuel₁) (hf₂ : fs.length < fuel₂) :
+    readAll fuel₁ chunks₁ [] = readAll fuel₂ chunks₂ [] := by
+  rw [readloop_exact fs hwf fuel₁ chunks₁ [] (by simpa using h₁) hf₁,
+      readloop_exact fs hwf fuel₂ chunks₂ [] (by simpa using h₂) hf₂]
+
+/-- a stream that ends inside a frame: the call reports end of stream — never an error, never data -/
+theorem readFrom_partial_eof {g : Bytes} (hg : WF g) : ∀ (chunks : List Bytes) (buff t : Bytes),
+    g = (buff ++ chunks.flatten) ++ t → t ≠ [] → (readFrom chunks buff).1 = .eof := by
+  intro chunks
+  induction chunks with
+  | nil =>
+    intro buff t h ht
+    have hc := Turn.consume_prefix hg buff t (by simpa using h) ht
+    simp [readFrom, hc]
+  | cons ch chs ih =>
+    intro buff t h ht
+    have hc := Turn.consume_prefix hg buff (ch ++ chs.flatten ++ t) (by simpa using h) (by simp [ht])
+    simp only [readFrom, hc]
+    exact ih (buff ++ ch) t (by simpa using h) ht
+
+/-- a stream that ends in the middle of a frame: the complete frames come out, the partial one never
+    does, and the loop ends with EOF -/
+theorem readloop_truncated (fs : List Bytes) (hwf : ∀ f ∈ fs, WF f) {g : Bytes} (hg : WF g)
+    (p t : Bytes) (hp : g = p ++ t) (ht : t ≠ []) :
+    ∀ (fuel : Nat) (chunks : List Bytes) (buff : Bytes), buff ++ chunks.flatten = fs.flatten ++ p →
+      fs.length < fuel → (readAll fuel chunks buff).1 = fs := by
+  induction fs with
+  | nil =>
+    intro fuel chunks buff heq hf
+    obtain ⟨k, rfl⟩ : ∃ k, fuel = k + 1 := ⟨fuel - 1, by simp at hf; omega⟩
+    simp only [readAll]
+    split
+    · rename_i f c hrf
+      have h := readFrom_partial_eof hg chunks buff t (by simp at heq; rw [heq]; exact hp) ht
+      rw [hrf] at h; cases h
+    · rfl
+  | cons f fs ih =>
+    intro fuel chunks buff heq hf
+    obtain ⟨k, rfl⟩ : ∃ k, fuel = k + 1 := ⟨fuel - 1, by simp at hf; omega⟩
+    have hfw : WF f := hwf f List.mem_cons_self
+    simp only [List.flatten_cons, List.append_assoc] at heq
+    obtain ⟨c1, h1, h1r, _⟩ := readFrom_one hfw chunks buff _ heq
+    have h2 := ih (fun g hg => hwf g (List.mem_cons_of_mem _ hg)) k c1.chunks c1.buff h1r
+      (by simp at hf; omega)
+    simp only [readAll, h1, h2]
+
+/-! non-vacuity of the whole-loop theorems: three frames (ChannelData, STUN, ChannelData with padding) cut at
+    awkward places come out whole and the loop ends with EOF; cut short, the partial frame never comes out -/
+example : readAll 9 [[0x40, 0, 0], [1, 9, 0, 0, 0, 0, 1, 0, 0, 0x21, 0x12], [0xA4, 0x42] ++ List.replicate 12 7 ++ [0x40],
+    [1, 0, 0]] [] =
+    ([[0x40, 0, 0, 1, 9, 0, 0, 0], [0, 1, 0, 0] ++ cookie ++ List.replicate 12 7, [0x40, 1, 0, 0]], some .eof) := by decide
+example : (readAll 9 [[0x40, 0, 0, 1, 9, 0, 0, 0, 0x40, 1, 0]] []).1 = [[0x40, 0, 0, 1, 9, 0, 0, 0]] := by decide
+
 end Turn.C10
